@@ -20,6 +20,15 @@ CHECKS.update({
     'C20': ('model_checking', 'symbolic execution: every rejected token sequence up to a length bound must blame the first token the reference parser cannot continue with (position, lexeme, nothing later read); every text up to a length bound with a stray or unterminated element must name its first character', '§7 C20'),
 })
 
+TV_TECH = 'SMT-decided translation validation: the real pipeline of the current tree is run on each member of an enumerated corpus of programs (dump driver), and z3 decides the universally quantified dimension (all words / all sentences up to a bound, or all symbols with no length bound by an inductive bisimulation step) against a denotational reference; witnesses are replayed against the real code'
+TV_TRUST = 'trusted: the dump driver (runs the real code natively), the reference denotations written from the documentation (/verif/ref), the SMT encodings (validated by native replay of every witness), z3; corpus generators can only shrink coverage'
+TV = {
+    'C01': ('translation_validation', 'per generated EBNF specification, the productions the real spec.Parse derives are compared with the EBNF denotation over one symbolic sentence up to a length bound, from start and from every user rule (both sides least fixed points); plus structural obligations (no empty names, every used non-terminal has a production)', '§7 C01'),
+    'C02': ('translation_validation', 'per generated pattern, the real regexToDFA automaton is compared with the documented meaning over one symbolic word up to a length bound (span-matrix denotation), and every pipeline stage (NFA, ToDFA, Minimize, EliminateDeadStates, ReindexStates) with its predecessor by an inductive bisimulation step over all code points (no length bound)', '§7 C02'),
+    'C03': ('translation_validation', 'per generated definition set, the real Spec.DFA combined automaton and terminal map are compared with the documented winner rule over one symbolic word up to a length bound, the conflict report is justified or refuted by a solver witness, and the whole automaton is compared without length bound with the labelled product of independently built reference automata', '§7 C03'),
+    'C10': ('translation_validation', 'per generated pattern, the directly constructed automaton is compared with the documented meaning (symbolic word up to a length bound) and with the NFA-route automaton by an inductive bisimulation step over all code points except U+0000 (no length bound)', '§7 C10'),
+}
+
 NA = {
     'C07': 'well-formedness checks run on hash tables keyed by fnv hashes and are reachable only through the whole parse; a solver decides nothing there that running the program does not (DESIGN.md §7 C07)',
     'C12': 'structural equality between two finite lists per directive list; no second dimension for a solver to quantify over (DESIGN.md §7 C12)',
@@ -38,9 +47,18 @@ def main():
             'level_claimed': {'category': cat, 'text': text, 'design_ref': 'DESIGN.md ' + ref},
             'level_note': TRUST, 'technique': TECH,
         })
+    for pid in sorted(TV):
+        cat, text, ref = TV[pid]
+        checks.append({
+            'property_id': pid, 'quick_cmd': './check %s quick' % pid, 'thorough_cmd': './check %s thorough' % pid,
+            'evidence_file': 'evidence/%s.json' % pid, 'replay_cmd_template': './check %s --replay {path}' % pid, 'engine': 'tvsmt',
+            'level_claimed': {'category': cat, 'text': text, 'design_ref': 'DESIGN.md ' + ref},
+            'level_note': TV_TRUST, 'technique': TV_TECH,
+        })
+    checks.sort(key=lambda c: c['property_id'])
     na = []
     for p in props:
-        if p['id'] in CHECKS:
+        if p['id'] in CHECKS or p['id'] in TV:
             continue
         na.append({'property_id': p['id'], 'reason': NA.get(p['id'], 'check not built yet (work in progress in this session)')})
     m = {
@@ -51,7 +69,9 @@ def main():
                   'baseline_off_cmd': 'cd /repo && go test -mod=mod -vet=off -count=1 -timeout 25m ./...',
                   'source_commits': [], 'add_only': True},
         'engines': [{'name': 'gosym', 'path': 'gosym/', 'serves_properties': sorted(CHECKS),
-                     'kind_free_text': 'bounded symbolic executor for go/ssa (own code, derived from x/tools go/ssa/interp) that decides path feasibility, harness assertions and implicit safety obligations with SMT solvers (QF_BV)'}],
+                     'kind_free_text': 'bounded symbolic executor for go/ssa (own code, derived from x/tools go/ssa/interp) that decides path feasibility, harness assertions and implicit safety obligations with SMT solvers (QF_BV)'},
+                    {'name': 'tvsmt', 'path': 'lib/tvsmt.py', 'serves_properties': sorted(TV),
+                     'kind_free_text': 'translation validation: native dump driver (go test -overlay) + z3 encodings of words, regex denotations, automaton runs, bisimulation steps and CFG membership'}],
         'checks': checks,
         'not_applicable': na,
         'notes': 'Every check rebuilds from /repo\'s working tree (go/packages load + SSA build per run). Exit 0 = held, 1 = VIOLATION, 2 = INCONCLUSIVE. known_findings.json lists genuine defects (open ones print KNOWN-FINDING).',
